@@ -5,6 +5,7 @@
 package scriggo
 
 import (
+	"errors"
 	"io"
 	"io/fs"
 	"os"
@@ -19,23 +20,27 @@ type Files map[string][]byte
 
 // Open opens the named file.
 func (fsys Files) Open(name string) (fs.File, error) {
-	if fs.ValidPath(name) {
-		if name == "." {
+	if !fs.ValidPath(name) {
+		return nil, &os.PathError{Op: "open", Path: name, Err: os.ErrInvalid}
+	}
+	if name == "." {
+		return &filesDir{filesFile: filesFile{name: name, mode: fs.ModeDir}, fsys: fsys}, nil
+	}
+	data, ok := fsys[name]
+	if ok {
+		return &filesFile{name, data, 0, 0}, nil
+	}
+	prefix := name + "/"
+	for n := range fsys {
+		if strings.HasPrefix(n, prefix) {
 			return &filesDir{filesFile: filesFile{name: name, mode: fs.ModeDir}, fsys: fsys}, nil
-		}
-		data, ok := fsys[name]
-		if ok {
-			return &filesFile{name, data, 0, 0}, nil
-		}
-		prefix := name + "/"
-		for n := range fsys {
-			if strings.HasPrefix(n, prefix) {
-				return &filesDir{filesFile: filesFile{name: name, mode: fs.ModeDir}, fsys: fsys}, nil
-			}
 		}
 	}
 	return nil, &os.PathError{Op: "open", Path: name, Err: os.ErrNotExist}
 }
+
+// errIsDirectory is the error returned reading the content of a directory.
+var errIsDirectory = errors.New("is a directory")
 
 type filesDir struct {
 	filesFile
@@ -43,7 +48,14 @@ type filesDir struct {
 	n    int
 }
 
+func (d *filesDir) Read([]byte) (int, error) {
+	return 0, &os.PathError{Op: "read", Path: d.name, Err: errIsDirectory}
+}
+
 func (d *filesDir) ReadDir(n int) ([]fs.DirEntry, error) {
+	if d.offset < 0 {
+		return nil, &os.PathError{Op: "readdir", Path: d.name, Err: os.ErrClosed}
+	}
 	var dir string
 	if d.name != "." {
 		dir = d.name + "/"
@@ -107,6 +119,9 @@ type filesFile struct {
 }
 
 func (f *filesFile) Stat() (os.FileInfo, error) {
+	if f.offset < 0 {
+		return nil, &os.PathError{Op: "stat", Path: f.name, Err: os.ErrClosed}
+	}
 	return (*filesFileInfo)(f), nil
 }
 
